@@ -477,7 +477,9 @@ func (u *Unit) binop(st *State, op token.Token, xv, yv Val, xt types.Type, pos t
 	case SStr:
 		switch op {
 		case token.ADD:
-			return App(SStr, "strcat", x, y)
+			r := u.ctx.Define("cat", App(SStr, "strcat", x, y))
+			u.assume(st, Eq(App(SInt, "strlen", r), Add(App(SInt, "strlen", x), App(SInt, "strlen", y))))
+			return r
 		case token.LSS, token.GTR, token.LEQ, token.GEQ:
 			lt := u.ctx.Func("strlt", []Sort{SStr, SStr}, SBool)
 			switch op {
